@@ -216,8 +216,10 @@ def gen_program(rng):
         specs.append(("qprovider", f"with q {rng.choice([2, 3.5, -1])}"))
     elif qprov == "with-random":
         specs.append(("qprovider", "with q Range(1, 2)"))
-    order = rng.choice(["dependent-first", "dependent-last", "shuffled", "shuffled"])
-    if order == "dependent-first":
+    order = rng.choice(["dependent-first", "dependent-last", "shuffled", "shuffled"] + (["between", "between"] if modifier else []))
+    if order == "between":      # provider, then the dependent specifiers, then the specifier modifying the provider
+        specs.sort(key=lambda s: {"dep": 1, "modifier": 2}.get(s[0], 0))
+    elif order == "dependent-first":
         specs.sort(key=lambda s: s[0] != "dep")
     elif order == "dependent-last":
         specs.sort(key=lambda s: s[0] == "dep")
